@@ -1,1 +1,49 @@
-fn main() { eprintln!("engine not built yet"); std::process::exit(2); }
+//! Engine `enumx` for the data / codec properties: bounded-exhaustive products of boundary
+//! alphabets, every case run through the real crux code inside `mc_kit::catch`, compared with an
+//! independently written reference.
+//!
+//!   mc-data C19|C17|C10 --tier quick|thorough [--replay <path>]
+
+mod c10;
+mod c10_app;
+mod c17;
+mod c19;
+pub mod codec;
+
+use mc_kit::Tier;
+
+fn main() {
+    let args: Vec<String> = std::env::args().skip(1).collect();
+    let Some(id) = args.first().cloned() else {
+        eprintln!("usage: mc-data C19|C17|C10 --tier quick|thorough [--replay <path>]");
+        std::process::exit(2);
+    };
+    let tier = Tier::from_args(&args);
+    let replay = mc_kit::arg_value(&args, "--replay");
+    mc_kit::install_panic_hook();
+    let code = match (id.as_str(), replay) {
+        ("C19", None) => c19::run(tier),
+        ("C19", Some(p)) => c19::replay(&p),
+        ("C17", None) => c17::run(tier),
+        ("C17", Some(p)) => c17::replay(&p),
+        ("C10", None) => c10::run(tier),
+        ("C10", Some(p)) => c10::replay(&p),
+        _ => {
+            eprintln!("MACHINERY-ERROR: mc-data does not implement {id}");
+            2
+        }
+    };
+    std::process::exit(code);
+}
+
+/// Loads the `case` object of a replay file written by `Reporter::finish`.
+pub fn load_replay_case(path: &str) -> serde_json::Value {
+    let text = std::fs::read_to_string(path)
+        .unwrap_or_else(|e| mc_kit::machinery_error(&format!("cannot read replay {path}: {e}")));
+    let v: serde_json::Value = serde_json::from_str(&text)
+        .unwrap_or_else(|e| mc_kit::machinery_error(&format!("replay {path} is not JSON: {e}")));
+    match v.get("case") {
+        Some(c) => c.clone(),
+        None => v,
+    }
+}
